@@ -120,6 +120,7 @@ class World:
         self.traceless = bool(make_pulse().basis.istraceless)
         self.pauli = make_pulse().basis.btype == 'Pauli' and make_pulse().d == 2
         self.btype_pauli = make_pulse().basis.btype == 'Pauli'
+        self.noise_traceless = bool(np.allclose(np.einsum('ajj->a', make_pulse().n_opers), 0))
         self.nqubits = int(round(np.log2(make_pulse().d)))
         self._ud = {}
 
@@ -274,7 +275,8 @@ def apply_op(world, p, op):
             return p.get_filter_function_derivative(W[1].copy(), n_oper_identifiers=['no such operator'])
         return ff.infidelity(p, S[1], W[1].copy(), which='nonsense')
     if name == 'Infidelity':
-        g, w, ci = a
+        g, w, tl, ci = a
+        assert tl == world.noise_traceless
         return ff.infidelity(p, S[g], W[g].copy(), which=pw(w), cache_intermediates=ci)
     if name == 'DecayAmplitudes':
         g, w, ci = a
@@ -424,7 +426,7 @@ def coq_op(world, op):
     if name == 'BadParams':
         return 'BadParams'
     if name == 'Infidelity':
-        return '(Infidelity %s %s %s)' % (G(a[0]), a[1], cb(a[2]))
+        return '(Infidelity %s %s %s %s)' % (G(a[0]), a[1], cb(a[2]), cb(a[3]))
     if name == 'DecayAmplitudes':
         return '(DecayAmplitudes %s %s %s)' % (G(a[0]), a[1], cb(a[2]))
     if name == 'Cumulant':
@@ -505,8 +507,8 @@ def alphabet(world, with_bad_user=False, small=False):
         ops.append(('CachePhases', g, None))
         ops.append(('CachePhases', g, 'UOk'))
         for ci in B:
-            ops.append(('Infidelity', g, 'Total', ci))
-        ops.append(('Infidelity', g, 'Correlations', False))
+            ops.append(('Infidelity', g, 'Total', world.noise_traceless, ci))
+        ops.append(('Infidelity', g, 'Correlations', world.noise_traceless, False))
         ops.append(('DecayAmplitudes', g, 'Total', False))
         ops.append(('DecayAmplitudes', g, 'Correlations', False))
         ops.append(('Cumulant', g, 'Total', False, None))
